@@ -103,7 +103,7 @@ type H struct {
 	toks      []Token
 	pos       int
 	sinceRead int
-	seen      map[string]struct{}
+	seen      map[string]int
 
 	States map[int32]int // stack-top states seen at taps
 	Meths  map[int]int   // methods called
@@ -258,12 +258,14 @@ func (h *H) Act(m int, args ...any) *Node {
 		}
 		k := sb.String()
 		if h.seen == nil {
-			h.seen = map[string]struct{}{}
+			h.seen = map[string]int{}
 		}
-		if _, dup := h.seen[k]; dup {
+		h.seen[k]++
+		if h.seen[k] > 4 {
+			// (more than 4 times, not twice: the parser may hold a little
+			// state the tap does not show)
 			panic(stop{"config-repeat"})
 		}
-		h.seen[k] = struct{}{}
 	} else if h.Tap == nil && h.sinceRead > 100000 {
 		panic(stop{"runaway-actions"})
 	}
